@@ -398,7 +398,14 @@ impl GitignoreBuilder {
             let line = match line {
                 Ok(line) => line,
                 Err(err) => {
+                    // A line that isn't valid UTF-8 has been consumed by
+                    // now, so it needn't cost us the rest of the file.
+                    let undecodable =
+                        err.kind() == std::io::ErrorKind::InvalidData;
                     errs.push(Error::Io(err).tagged(path, lineno));
+                    if undecodable {
+                        continue;
+                    }
                     break;
                 }
             };
